@@ -14,4 +14,9 @@ export CARGO_NET_OFFLINE=true
   cargo build --offline -p kvh-translator
 ) || { echo "regen: translator build failed"; exit 1; }
 mkdir -p /verif/coq/gen /verif/.cache/gen
-exec /verif/.cache/target/debug/translator all --repo "${KYRO_REPO:-/repo}" --out /verif/coq/gen --report-dir /verif/.cache/gen
+# one line per target; the exit status is the worst one (a target that fails closed does not stop the others)
+rc=0
+run_target() { /verif/.cache/target/debug/translator "$1" --repo "${KYRO_REPO:-/repo}" --out /verif/coq/gen --report-dir /verif/.cache/gen || { r=$?; [ "$r" -gt "$rc" ] && rc=$r; }; }
+run_target config      # C18: KyroDbConfig::validate -> Config_gen.v
+run_target search_k    # C06: hnsw_backend::compute_search_k -> SearchK_gen.v
+exit $rc
